@@ -46,11 +46,13 @@ func genDoc(r *Rng, maxLen int) []byte {
 	loadCorpus()
 	var doc []byte
 	switch x := r.Intn(100); {
-	case x < 45:
+	case x < 42:
 		doc = append(doc, corpus[r.Intn(len(corpus))].Data...)
-	case x < 75:
+	case x < 70:
 		doc = compose(r, r.Range(1, 6))
-	case x < 90:
+	case x < 82:
+		doc = classLines(r)
+	case x < 92:
 		// concatenation of 2-4 documents, with or without blank lines
 		n := r.Range(2, 4)
 		for i := 0; i < n; i++ {
@@ -73,8 +75,10 @@ func genDoc(r *Rng, maxLen int) []byte {
 				doc = append(doc, " \n\t\n"...)
 			}
 		}
-	default:
+	case x < 97:
 		doc = deepNest(r)
+	default:
+		doc = classLines(r)
 	}
 	doc = derive(r, doc)
 	if len(doc) > maxLen {
@@ -458,6 +462,54 @@ func deepNest(r *Rng) []byte {
 		sb.WriteString(strings.Repeat("- > ", d/2) + "x\n")
 	default:
 		sb.WriteString(strings.Repeat("`", d) + " x " + strings.Repeat("`", d-1) + "\n" + strings.Repeat("[](", d))
+	}
+	return []byte(sb.String())
+}
+
+// ---- class-homogeneous lines ------------------------------------------------
+//
+// A line is a few container prefixes, a line opener and 0-3 tokens drawn from
+// ONE token class (sometimes one stray token of another class).  Conditions of
+// the form "an info string / title / label / line that consists ONLY of X" are
+// common this way, which token soup over one big alphabet almost never hits.
+
+var tokenClasses = [][]string{
+	{"&#32;", "&#x20;", "&Tab;", "&NewLine;", "&nbsp;", "&#0;", "&#xD800;", "&#x110000;", "&#9;", "&#10;", "&#13;", "&amp;", "&lt;", "&quot;", "&;", "&#;", "&#x;", "&copy", "&#1234567890;", "&NoSuchEntity;", "&#xFFFD;", "&AElig", "&ngE;", "&#x0;", "&zwnj;", "&ensp;"},
+	{" ", "  ", "\t", "\\", "\\\\", "`", "``", "*", "**", "_", "__", "~", "#", "=", "-", "+", ".", ")", "(", "[", "]", "!", "<", ">", ":", "'", "\"", "|", "\\`", "\\[", "\\<", "\\&"},
+	{"<a>", "</a>", "<B>", "<SPAN x=y>", "<br/>", "<!--", "-->", "<!-->", "<!--->", "<?", "?>", "<![CDATA[", "]]>", "<!X", "<!x>", "<a href='", "<a href=\"x", "<https://x.y>", "<x@y.z>", "<\u03a3>", "</", "<", "<a/", "<a b=c d>", "<LongTagName>", "<I>", "</LongTagName >", "<a\tb>", "<sCrIpT>", "<pre>", "</pre>"},
+	{"[a]", "[a]:", "[A]", "(/u)", "(<u v>)", "(/u \"t\")", "(/u 't')", "(/u (t))", "[]", "![", "](", "][", "[^a]", "[a b]", "[a\\]b]", "(", ")", "(<>)", "(/u\\))", "[a]: /u", "[a]: <>", "[\u1e9e]", "[SS]", "[ a  b ]", "(/%zz?a=b&c=\u00e9)", "(/u 'a\\'b')", "(\\)"},
+	{"a", "word", "\u00c9", "\u00df", "\u00a0", "\u2003", "0", "12", "x y", "\ufeff", "e\u0301", "\U0001f600", "\x7f", "Z"},
+}
+
+var lineOpeners = []string{"```", "~~~", "````", "`````", "~~~~", "``` ", "# ", "###### ", "#", "####### ", "    ", "\t", "[a]: ", "[Foo]:", "<div>", "<pre>", "<!--", "<?", "- ", "* ", "+ ", "1. ", "12) ", "0. ", "> ", ">", "", "", "", "", "***", "===", "---", "   ", "  - ", "   > "}
+
+var containerPrefixes = []string{"> ", ">", "- ", "  ", "1. ", "    ", "\t", "* ", ">\t", "   "}
+
+func classLines(r *Rng) []byte {
+	var sb strings.Builder
+	nl := r.Range(1, 8)
+	for i := 0; i < nl; i++ {
+		for k := r.Intn(3); k > 0; k-- {
+			if r.Chance(0.6) {
+				sb.WriteString(r.Pick(containerPrefixes))
+			}
+		}
+		sb.WriteString(r.Pick(lineOpeners))
+		cls := tokenClasses[r.Intn(len(tokenClasses))]
+		for k := r.Intn(4); k > 0; k-- {
+			if r.Chance(0.12) {
+				sb.WriteString(r.Pick(tokenClasses[r.Intn(len(tokenClasses))]))
+			} else {
+				sb.WriteString(r.Pick(cls))
+			}
+			if r.Chance(0.25) {
+				sb.WriteByte(' ')
+			}
+		}
+		sb.WriteString(r.Pick([]string{"", "", "", " ", "  ", "\\", "\t"}))
+		if i < nl-1 || r.Chance(0.7) {
+			sb.WriteByte('\n')
+		}
 	}
 	return []byte(sb.String())
 }
